@@ -3,6 +3,7 @@ import NbioVerif.Lemmas.C10Measure
 import NbioVerif.Lemmas.C10Close
 import NbioVerif.Lemmas.C10Heap
 import NbioVerif.Lemmas.C10Client
+import NbioVerif.Lemmas.C10Pool
 import NbioVerif.Properties.C05
 /-! # C10 — HTTP exchanges end to end: one answer per request, in order, isolated
 
@@ -41,88 +42,128 @@ theorem run_ext (cfg : Cfg α) : ∀ (acts : List Act) (s : St α), (∀ a ∈ a
     · rename_i s' hs; rw [ih s' has, step_ext a hs ha]
     · exact ih s has
 
-/-- **The pipeline theorem, full strength** (repaired code: the close decision waits for the write list).
-    If no external close interferes, then once every request is parsed and every accepted job has
+/-
+The full statement of the pipeline clause —
+
+    theorem c10_pipeline_full (cfg) (acts) (no extClose in acts) (quiescent (run cfg init acts)) :
+        (run cfg init acts).wire = ideal cfg
+
+— is FALSE on the tree as it is: `flushResponse` calls `conn.Close()` right after the last
+`conn.Write`, and `Close` releases whatever the conn's write list still holds ("the data may still in
+the send queue" says the source).  When the kernel did not take a response in full — any response
+larger than the socket buffers, to any reader — the response that carries the close decision is
+truncated on the wire.  Witness below; the provable part carries the hypothesis `dropped = false`.
+-/
+
+def cexReq : Req Nat := { major := 1, minor := 0, connVals := [], pieces := [[1, 2, 3, 4]] }
+def cexCfg : Cfg Nat := { reqs := [cexReq], sync := false }
+def cexActs : List Act := [.parse, .start, .write (some 2), .finish]
+
+/-- **Counterexample to the full statement (known finding, close drops the backlog).**  One HTTP/1.0
+    request; the kernel takes 2 of the 4 response bytes, the other 2 are queued; the job finishes,
+    the close decision closes the connection and the queue is released.  No external close, everything
+    parsed and finished — yet the wire holds half the response. -/
+theorem c10_pipeline_counterexample :
+    (∀ a ∈ cexActs, a ≠ Act.extClose) ∧
+    (run cexCfg init cexActs).next = cexCfg.reqs.length ∧ (run cexCfg init cexActs).queue = [] ∧
+    (run cexCfg init cexActs).wire = [1, 2] ∧ ideal cexCfg = [1, 2, 3, 4] ∧
+    (run cexCfg init cexActs).dropped = true := by
+  decide
+
+/-- **The pipeline theorem (provable part).**  If no external close interferes and no close found bytes
+    still queued (`dropped = false`), then once every request is parsed and every accepted job has
     finished — in *any* order of the steps, with any short writes and flushes in between — what the
-    kernel took plus what is still queued is exactly `resp₁ ++ … ++ respₘ`, nothing was dropped, and the
-    connection is closed or waiting to close iff some request's close decision is true. -/
-theorem c10_pipeline_total (cfg : Cfg α) (acts : List Act) (hne : ∀ a ∈ acts, a ≠ Act.extClose)
-    (hq : quiescent cfg (run cfg init acts)) :
+    kernel took plus what is still queued is exactly `resp₁ ++ … ++ respₘ`, and the connection is closed
+    iff some request's close decision is true.  (Closed ⇒ nothing is queued, so then the wire itself
+    is `resp₁ ++ … ++ respₘ`.) -/
+theorem c10_pipeline_partial (cfg : Cfg α) (acts : List Act) (hne : ∀ a ∈ acts, a ≠ Act.extClose)
+    (hq : quiescent cfg (run cfg init acts)) (hd : (run cfg init acts).dropped = false) :
     (run cfg init acts).wire ++ (run cfg init acts).pending = ideal cfg ∧
-    (run cfg init acts).shut = willClose cfg ∧ (run cfg init acts).dropped = false := by
+    (run cfg init acts).closed = willClose cfg ∧
+    ((run cfg init acts).closed = true → (run cfg init acts).wire = ideal cfg) := by
   have hi := inv_run (cfg := cfg) acts (inv_init cfg)
   have he : (run cfg init acts).ext = false := by rw [run_ext cfg acts init hne]; rfl
-  have hd : (run cfg init acts).dropped = false := by
-    cases hdd : (run cfg init acts).dropped with
-    | false => rfl
-    | true => have := hi.drop_ext hdd; rw [he] at this; cases this
   obtain ⟨hn, hqe⟩ := hq
   cases hc : (run cfg init acts).closed with
   | true =>
     rcases hi.why hc with hb | hx
     · obtain ⟨_, h2, _, h4⟩ := hi.by_srv hb
-      refine ⟨?_, by simp [St.shut, hc, h2], hd⟩
-      rw [(hi.pend hc).1, List.append_nil]; exact h4
+      refine ⟨?_, h2.symm, fun _ => h4 hd⟩
+      rw [hi.pend hc, List.append_nil]; exact h4 hd
     · rw [he] at hx; cases hx
   | false =>
-    cases hdr : (run cfg init acts).draining with
-    | true =>
-      obtain ⟨_, h2, _, h4⟩ := hi.drain hdr
-      exact ⟨h4, by simp [St.shut, hc, hdr, h2], hd⟩
-    | false =>
-      have hs : (run cfg init acts).shut = false := by simp [St.shut, hc, hdr]
-      have hcur : (run cfg init acts).cur = none := by
-        cases hcu : (run cfg init acts).cur with
-        | none => rfl
-        | some rem => exact absurd hqe (hi.cur_some rem hcu).1
-      have hfin : (run cfg init acts).fin = cfg.reqs.length := by
-        have := hi.acc_eq (Or.inl hc); rw [hqe] at this; simp at this; omega
-      have hnc := hi.no_close hs
-      rw [hfin] at hnc
-      obtain ⟨h1, h2⟩ := answered_all cfg.reqs hnc
-      refine ⟨?_, by simp [hs, willClose, h2], hd⟩
-      rw [hi.cur_none hcur hs, hfin, ideal, h1]
+    have hcur : (run cfg init acts).cur = none := by
+      cases hcu : (run cfg init acts).cur with
+      | none => rfl
+      | some rem => exact absurd hqe (hi.cur_some rem hcu).1
+    have hfin : (run cfg init acts).fin = cfg.reqs.length := by
+      have := hi.acc_eq (Or.inl hc); rw [hqe] at this; simp at this; omega
+    have hnc := hi.no_close hc
+    rw [hfin] at hnc
+    obtain ⟨h1, h2⟩ := answered_all cfg.reqs hnc
+    refine ⟨?_, by simp [willClose, h2], fun hh => by cases hh⟩
+    rw [hi.cur_none hcur hc, hfin, ideal, h1]
 
-/-- **… and on the wire**: when moreover the write list has been flushed, the wire itself is
-    `resp₁ ++ … ++ respₘ` — every answered request exactly once, in order, complete — and the connection
-    is closed iff a closing request exists.  No hypothesis on the kernel's answers, no ghost. -/
+/-- **The pipeline theorem at full strength when the kernel takes every write in full** (no short
+    write, hence no backlog — e.g. every response of the sampled domain on loopback): the wire is
+    exactly `resp₁ ++ … ++ respₘ`, closed iff a closing request exists. -/
 theorem c10_pipeline (cfg : Cfg α) (acts : List Act) (hne : ∀ a ∈ acts, a ≠ Act.extClose)
-    (hq : quiescent cfg (run cfg init acts)) (hp : (run cfg init acts).pending = []) :
+    (hfull : ∀ a ∈ acts, ∀ k, a ≠ Act.write (some k))
+    (hq : quiescent cfg (run cfg init acts)) :
     (run cfg init acts).wire = ideal cfg ∧ (run cfg init acts).closed = willClose cfg := by
-  obtain ⟨h1, h2, _⟩ := c10_pipeline_total cfg acts hne hq
+  have hfd : ∀ (acts : List Act) (s : St α), (∀ a ∈ acts, ∀ k, a ≠ Act.write (some k)) →
+      s.pending = [] → s.dropped = false →
+      (run cfg s acts).pending = [] ∧ (run cfg s acts).dropped = false := by
+    intro acts
+    induction acts with
+    | nil => intro s _ hp hd; exact ⟨hp, hd⟩
+    | cons a as ih =>
+      intro s h hp hd
+      simp only [run]
+      have ha := h a List.mem_cons_self
+      have has := fun x hx => h x (List.mem_cons_of_mem _ hx)
+      split
+      · rename_i s' hs
+        obtain ⟨h1, h2⟩ := step_full a hs ha hp hd
+        exact ih s' has h1 h2
+      · exact ih s has hp hd
+  obtain ⟨hp, hd⟩ := hfd acts init hfull rfl rfl
+  obtain ⟨h1, h2, _⟩ := c10_pipeline_partial cfg acts hne hq hd
   rw [hp, List.append_nil] at h1
-  refine ⟨h1, ?_⟩
+  exact ⟨h1, h2⟩
+
+/-- **The pipeline theorem for histories without a closing request, any kernel behaviour** — the
+    hypothesis `dropped = false` of `c10_pipeline_partial` discharged by a condition on the *input*: if no
+    request of the history has a true close decision and no external close happens, then under
+    arbitrary short writes and flushes nothing is ever dropped, the connection stays open, and at
+    quiescence taken ++ queued is exactly `resp₁ ++ … ++ respₙ` (all of them). -/
+theorem c10_pipeline_keepalive (cfg : Cfg α) (acts : List Act) (hne : ∀ a ∈ acts, a ≠ Act.extClose)
+    (hk : willClose cfg = false) (hq : quiescent cfg (run cfg init acts)) :
+    (run cfg init acts).wire ++ (run cfg init acts).pending = ideal cfg ∧
+    (run cfg init acts).closed = false ∧ (run cfg init acts).dropped = false := by
   have hi := inv_run (cfg := cfg) acts (inv_init cfg)
-  cases hdr : (run cfg init acts).draining with
-  | true => exact absurd hp (hi.drain hdr).1
-  | false => simpa [St.shut, hdr] using h2
-
-def cexReq : Req Nat := { major := 1, minor := 0, connVals := [], pieces := [[1, 2, 3, 4]] }
-def cexCfg : Cfg Nat := { reqs := [cexReq], sync := false }
-
-/-- regression of the former known finding "close drops the backlog" (`flushResponse` closed at once
-    and `Close` released the write list): one HTTP/1.0 request, the kernel takes 2 of 4 response bytes,
-    the job finishes with 2 bytes queued.  The connection now waits (`draining`), the poller's flush
-    delivers the rest and closes. -/
-example :
-    let s1 := run cexCfg init [.parse, .start, .write (some 2), .finish]
-    let s2 := run cexCfg init [.parse, .start, .write (some 2), .finish, .flush 1, .flush 5]
-    s1.wire = [1, 2] ∧ s1.pending = [3, 4] ∧ s1.draining = true ∧ s1.closed = false ∧
-    s2.wire = [1, 2, 3, 4] ∧ s2.closed = true ∧ s2.byServer = true ∧ s2.dropped = false := by
-  decide
-
-/-- Only an immediate close can still cut a response: `dropped` implies that an external close
-    (Close, deadline, reset, write error) happened. -/
-theorem c10_dropped_only_by_ext (cfg : Cfg α) (acts : List Act)
-    (h : (run cfg init acts).dropped = true) : (run cfg init acts).ext = true :=
-  (inv_run acts (inv_init cfg)).drop_ext h
+  have he : (run cfg init acts).ext = false := by rw [run_ext cfg acts init hne]; rfl
+  have hc : (run cfg init acts).closed = false := by
+    cases hcl : (run cfg init acts).closed with
+    | false => rfl
+    | true =>
+      rcases hi.why hcl with hb | hx
+      · have := (hi.by_srv hb).2.1; rw [hk] at this; cases this
+      · rw [he] at hx; cases hx
+  have hd : (run cfg init acts).dropped = false := by
+    cases hdd : (run cfg init acts).dropped with
+    | false => rfl
+    | true =>
+      have := run_dropped (cfg := cfg) acts init (by intro h; cases h) hdd
+      rw [hc] at this; cases this
+  exact ⟨(c10_pipeline_partial cfg acts hne hq hd).1, hc, hd⟩
 
 /-- **What `pipedrv` prints is covered**: the driver evaluates `run cfg init acts` for an explicit `acts`
-    (schedule letters of the K line ++ `completion k`) and prints a prediction only after the two
+    (schedule letters of the K line ++ `completion k`) and prints a prediction only after the three
     decidable checks below succeeded on that very run.  Then the wire of the run is exactly
     `resp₁ ++ … ++ respₘ` and `closed` says whether a closing request exists. -/
 theorem c10_run_checked (cfg : Cfg α) (acts : List Act) (h1 : noExt acts = true)
-    (h2 : doneB cfg (run cfg init acts) = true) :
+    (h2 : doneB cfg (run cfg init acts) = true) (h3 : (run cfg init acts).dropped = false) :
     (run cfg init acts).wire = ideal cfg ∧ (run cfg init acts).closed = willClose cfg := by
   have hne : ∀ a ∈ acts, a ≠ Act.extClose := by
     intro a ha
@@ -130,7 +171,9 @@ theorem c10_run_checked (cfg : Cfg α) (acts : List Act) (h1 : noExt acts = true
     simpa using this
   simp only [doneB, Bool.and_eq_true, beq_iff_eq, List.isEmpty_iff] at h2
   obtain ⟨⟨hn, hqe⟩, hp⟩ := h2
-  exact c10_pipeline cfg acts hne ⟨hn, hqe⟩ hp
+  obtain ⟨hw, hc, _⟩ := c10_pipeline_partial cfg acts hne ⟨hn, hqe⟩ h3
+  rw [hp, List.append_nil] at hw
+  exact ⟨hw, hc⟩
 
 /-- the action lists the driver appends contain no external close -/
 theorem c10_completion_noExt (k : Nat) : noExt (completion k) = true := by
@@ -173,12 +216,12 @@ theorem c10_nothing_after_close (cfg : Cfg α) (acts : List Act) :
       exact ⟨h3.trans h2, h4⟩
     · exact ih s hc
 
-/-- **Closed by the close decision ⇒ a closing request exists, at least `m` jobs have finished, and the
-    whole of `resp₁ ++ … ++ respₘ` went out** (the close decision is carried out only when the response of
-    that request, and of all earlier ones, has been taken by the kernel). -/
+/-- **Closed by the server ⇒ a closing request exists, at least `m` jobs have finished, and — unless the
+    close found bytes still queued — the whole of `resp₁ ++ … ++ respₘ` went out** (the close decision is
+    acted on only after the response of that request, and of all earlier ones, was written). -/
 theorem c10_server_close (cfg : Cfg α) (acts : List Act) (h : (run cfg init acts).byServer = true) :
     willClose cfg = true ∧ answered cfg.reqs ≤ (run cfg init acts).fin ∧
-    (run cfg init acts).wire = ideal cfg := by
+    ((run cfg init acts).dropped = false → (run cfg init acts).wire = ideal cfg) := by
   obtain ⟨_, h2, h3, h4⟩ := (inv_run acts (inv_init cfg)).by_srv h
   exact ⟨h2, h3, h4⟩
 
@@ -217,10 +260,7 @@ theorem c10_progress (cfg : Cfg α) (acts : List Act) :
         simp [step, hc, hq, List.getElem?_eq_getElem hlt]
       | some rem =>
         cases rem with
-        | nil =>
-          refine ⟨.finish, by decide, ?_⟩
-          simp only [step, hc, hq]
-          (repeat' split) <;> rfl
+        | nil => exact ⟨.finish, by decide, by simp [step, hc, hq]⟩
         | cons p ps =>
           refine ⟨.write none, by decide, ?_⟩
           simp only [step, hc]
@@ -467,3 +507,77 @@ example : EnvOK {} exOps ∧ (run {} exOps).calls = [(0, .resp (some 0)), (1, .r
   decide
 
 end ClientFifo
+
+namespace ClientPool
+
+/-- **A ClientConn is in exactly one place**: after any sequence of requests entering `getConn`, callbacks
+    releasing their conn, waiter time-outs and conns being marked closed, every ClientConn created so far
+    is either in the free channel or handed to a request — never both, never twice — and nothing else
+    is in those lists. -/
+theorem c10_pool_one_place (max : Nat) (ops : List Op) :
+    let s := run max {} ops
+    (s.idle ++ s.busy).Perm (List.range s.count) ∧ s.idle.Nodup ∧ s.busy.Nodup ∧
+      (∀ c, c ∈ s.idle → c ∉ s.busy) := by
+  intro s
+  have hi := inv_run (max := max) ops (inv_init max)
+  have hn : (s.idle ++ s.busy).Nodup := (hi.conns.nodup_iff).mpr List.nodup_range
+  obtain ⟨h1, h2, h3⟩ := List.nodup_append.mp hn
+  exact ⟨hi.conns, h1, h2, fun c hc hb => h3 c hc c hb rfl⟩
+
+/-- **Per host at most `MaxConnsPerHost` ClientConns**, all accounted for: free + in use = created ≤ max.
+    In particular the free channel (capacity max) never overflows: `releaseConn`'s send, which runs
+    inside the callback under the ClientConn's mutex, cannot block. -/
+theorem c10_pool_bound (max : Nat) (ops : List Op) :
+    let s := run max {} ops
+    s.idle.length + s.busy.length = s.count ∧ s.count ≤ max ∧ s.idle.length ≤ max := by
+  intro s
+  have hi := inv_run (max := max) ops (inv_init max)
+  have hl : s.idle.length + s.busy.length = s.count := by
+    have := hi.conns.length_eq
+    simpa only [List.length_append, List.length_range] using this
+  have hb : s.count ≤ max := hi.bound
+  exact ⟨hl, hb, by omega⟩
+
+/-- **Every request is assigned to exactly one ClientConn, or waits, or failed with the time-out** —
+    exactly one of the three, once. -/
+theorem c10_pool_assigned_once (max : Nat) (ops : List Op) :
+    let s := run max {} ops
+    (s.assigned.map (·.1) ++ s.waiting ++ s.failed).Perm (List.range s.nreq) ∧
+      (s.assigned.map (·.1)).Nodup := by
+  intro s
+  have hi := inv_run (max := max) ops (inv_init max)
+  have hn : (s.assigned.map (·.1) ++ s.waiting ++ s.failed).Nodup := (hi.reqs.nodup_iff).mpr List.nodup_range
+  have h1 := (List.nodup_append.mp hn).1
+  exact ⟨hi.reqs, (List.nodup_append.mp h1).1⟩
+
+/-- **No request waits while a ClientConn is free or could be created.** -/
+theorem c10_pool_no_idle_wait (max : Nat) (ops : List Op) (h : (run max {} ops).waiting ≠ []) :
+    (run max {} ops).idle = [] ∧ (run max {} ops).count = max :=
+  (inv_run (max := max) ops (inv_init max)).wait h
+
+/-- **A ClientConn marked closed is reset before it carries a request**: the hand-over (`hc.Reset()`
+    in `Client.Do`) clears the mark, the ClientConn dials a new connection — the dead connection of a
+    ClientConn whose close has been noticed is never written to.  (A close that has *not* been noticed
+    yet when the next request is handed over is outside this statement: the request is written to the
+    dying connection and its callback gets an error, which the property allows.) -/
+theorem c10_pool_reset_before_use (s : St) (r c : Nat) : c ∉ (assign s r c).dead := by
+  simp [assign]
+
+/-- The exactly-once guarantee of the callbacks (`ClientFifo.c10_client_exactly_once`) is what the
+    pool rests on: a second release of the same ClientConn puts it into the free channel twice, and
+    two requests are then handed the same ClientConn at the same time. -/
+theorem c10_pool_double_release_counterexample :
+    let s1 := run 2 {} [.get, .release 0]
+    let s2 := run 2 (releaseUnchecked s1 0) [.get, .get]
+    s2.busy = [0, 0] ∧ s2.assigned = [(0, 0), (1, 0), (2, 0)] := by
+  decide
+
+/-- non-vacuity: three requests on a pool of two, the third waits and gets the first released conn,
+    which had been marked closed meanwhile and is reset -/
+example :
+    let s := run 2 {} [.get, .get, .get, .connClosed 1, .release 1, .release 0]
+    s.assigned = [(0, 0), (1, 1), (2, 1)] ∧ s.idle = [0] ∧ s.busy = [1] ∧ s.waiting = [] ∧
+      s.redials = [2] ∧ s.dead = [] := by
+  decide
+
+end ClientPool
